@@ -42,6 +42,16 @@ CHECKS = {
             "24-bit byte map (device windows are C11/C12); I is kept in 1..3; 17 divergence classes are recorded as known "
             "findings with signatures naming opcode and prefix class.",
             "DESIGN.md section 4, C06"),
+    "C07": ("exploration",
+            "exhaustive metamorphic enumeration on both cores: every structural shape under 3 scratch-register fillings x 2 "
+            "call-bookkeeping states, all ordered (history, instruction) pairs same-object vs fresh-object, every split "
+            "N+M of loop skeletons, repeated/fresh-process determinism, self-modifying code",
+            "No reference is needed: two executions that differ only in hidden state (TEMP0-13, call depth/stack/page "
+            "bookkeeping, earlier instructions in the same emulator or harness process, process-wide counters) must give "
+            "identical architectural results; every element of the stated finite domains is executed on both cores.",
+            "Architectural state is taken as BA,I,X,Y,U,S,PC,F plus memory; machine-level split runs are covered by the "
+            "C12/C16/C18 drivers.",
+            "DESIGN.md section 4, C07"),
     "C08": ("model_checking",
             "explicit-state BFS over register write histories on the real Python Registers and Rust LlamaState "
             "(closure per alias group, all sequences up to depth 2/3 over the full alphabet) against a reference register file",
